@@ -387,8 +387,31 @@ pub fn dispatch_mirror(kind: &str, a: &[&str]) -> Option<String> {
             }
             last
         }
-        _ => return None,
+        _ => return dispatch_ladder(kind, a), // s_c03: additional kind below
     };
     Some(r)
 }
 // <<< a_c03
+
+// >>> s_c03 (wave 6): bt.mir for LONG inputs -- the decider `mirror::ge` recurses once per token, so the comparison
+// runs on a thread with a large stack (the parsers themselves run exactly as in bt.mir)
+pub fn dispatch_ladder(kind: &str, a: &[&str]) -> Option<String> {
+    match (kind, a) {
+        ("bt.mirl", [h]) => {
+            let data = unhex(h);
+            let t = std::thread::Builder::new().stack_size(1 << 30).spawn(move || {
+                let mut t1 = BinaryTape::new();
+                let mut t2 = BinaryTape::new();
+                let ro = BinaryTapeParser.parse_slice_into_tape(&data, &mut t1);
+                let rr = BinaryTapeParser.parse_slice_into_tape_unoptimized(&data, &mut t2);
+                format!("opt={} ref={}", mirror::flags(&data, ro, &t1), mirror::flags(&data, rr, &t2))
+            });
+            match t {
+                Ok(j) => Some(j.join().unwrap_or_else(|_| "PANIC".to_string())),
+                Err(_) => Some("NOTHREAD".to_string()),
+            }
+        }
+        _ => None,
+    }
+}
+// <<< s_c03
